@@ -133,7 +133,13 @@ def bfs_real(ad, insts, pad_steps=2, max_depth=None):
             liv = torch.tensor(live)
             pairs = am[liv].nonzero()
             if pairs.shape[0] > MAX_ROWS:
-                raise RuntimeError("frontier too large: %d" % pairs.shape[0])
+                # the episode tree explodes (episodes that never finish): report the live rows as unfinished
+                for r in live:
+                    episodes.append({"inst": group[row_inst[r]], "a": hist[r], "mask": masks[r],
+                                     "done": dones[r], "reward": None, "checker": "none",
+                                     "pad": {"a": [], "mask": [], "done": []}, "st": sts[r], "fin": {},
+                                     "end": "cap"})
+                break
             src = liv[pairs[:, 0]]
             td_n = _index(td, src)
             td_n.set("action", pairs[:, 1].clone())
